@@ -51,64 +51,8 @@ def run(ctx):
                "Validity::new stores its arguments in order", where=nb.loc, detail=vals)
 
     # ---- C17.b pivots ------------------------------------------------------------
-    eb = f.body(X + "Time::encode_varied")
-    if eb is None:
-        ctx.missing("R-REG", "Time::encode_varied", X + "Time::encode_varied")
-    else:
-        ctx.saw_fn(eb.name)
-        paths, it, err = K.run_absint(f, eb.name, sym_names={"DateTime::year(Time::deref(self))": "year", "DateTime::year(self.0)": "year"})
-        if paths is None:
-            ctx.ob("R-REG", "encode_varied:analysable", False, "cannot establish: " + err, where=eb.loc)
-        else:
-            ysym = [s for p in paths for s in p.zone.syms if "year" in s]
-            y = ysym[0] if ysym else "year"
-            utc = lambda p: outcome_str(p.outcome) == "return (Some(Time::encode_utc_time(self)), None)"
-            gen = lambda p: outcome_str(p.outcome) == "return (None, Some(Time::encode_generalized_time(self)))"
-            K.check_regions(ctx, "R-REG", "Time::encode_varied", paths, it, [
-                ("year<1950", RC(y, None, 1949), gen, "GeneralizedTime"),
-                ("1950≤year≤2049", RC(y, 1950, 2049), utc, "UTCTime"),
-                ("year>2049", RC(y, 2050, None), gen, "GeneralizedTime"),
-            ], eb.loc)
-    # decoder pivot in both copies
+    K.check_time_pivots(ctx, f)
     dec_closures = [b for n, b in f.bodies.items() if re.match(r"^repository::x509::Time::take_(opt_)?from::\{closure#\d+\}$", n)]
-    npiv = 0
-    for b in dec_closures:
-        oc = outcome(b)
-        sym = oc.sym
-        yl = [l for l in range(len(b.locals)) if b.local_name(l) == "year"]
-        defs = []
-        for l in yl:
-            for bb, t in sym.defs_of_var(l):
-                defs.append((bb, render(strip_deep(t))))
-            if l not in sym._multi and l not in [x for x in yl if x in sym._multi]:
-                pass
-        piv = [(bb, r) for bb, r in defs if re.search(r"(1900|2000)\)", r)]
-        if not piv:
-            continue
-        npiv += 1
-        edges_true = set()
-        for bi, blk in enumerate(b.blocks):
-            if blk["term"]["t"] == "switch":
-                e = K.order_literal_edges(b, sym, bi, r"^50$", r"read_two_char\(prim\)")
-                if e:
-                    edges_true.update(e)
-        ok = bool(edges_true) and len(piv) == 2
-        detail = {"defs": piv, "pivot_edges": sorted(edges_true)}
-        for bb, r in piv:
-            dominated_by_true = bb not in b.reachable(0, removed_edges=edges_true)
-            if "1900" in r:
-                ok = ok and dominated_by_true
-            else:
-                # the 20yy arm is reachable only when the literal 50 <= yy is false
-                false_edges = set()
-                for (sw, tt) in edges_true:
-                    e = switch_bool_edges(b, sw)
-                    false_edges.add((sw, e[0] if tt == e[1] else e[1]))
-                ok = ok and bb not in b.reachable(0, removed_edges=false_edges)
-        ctx.ob("R-SIB", "%s:two-digit-year-pivot-50" % short(root_fn(f, b.name)) + ("" if "opt" not in b.name else ""), ok,
-               "%s maps yy ≥ 50 to 19yy and yy < 50 to 20yy (the encoder's UTCTime range 1950..=2049)" % short(root_fn(f, b.name)),
-               where=b.loc, detail=detail)
-    ctx.floor("R-SIB", "UTCTime decoder copies with a year pivot", npiv, 2)
     # writers: year % 100 for UTCTime, full year for GeneralizedTime; six fields each
     for ty, first in (("UtcTime", r"^Rem\(DateTime::year\(self\.0\), 100\)$"), ("GeneralizedTime", r"^DateTime::year\(self\.0\)$")):
         wb = f.body("<%s%s as bcder::encode::PrimitiveContent>::write_encoded" % (X, ty))
